@@ -84,7 +84,7 @@ var Interferers = []Script{
 		`c = math.random(1, 10)`,
 		`d = math.random(math.mininteger, math.maxinteger)`,
 	}},
-	{Name: "rand_entropy_seed", Core: true, Stmts: []string{
+	{Name: "rand_entropy_seed", Stmts: []string{
 		`math.randomseed()`,
 		`x = math.random(1000)`,
 	}},
@@ -102,7 +102,7 @@ var Interferers = []Script{
 		`collectgarbage("step")`,
 		`collectgarbage("collect")`,
 	}},
-	{Name: "gc_modes", Core: true, Stmts: []string{
+	{Name: "gc_modes", Stmts: []string{
 		`collectgarbage("generational")`,
 		`collectgarbage("incremental")`,
 		`collectgarbage("incremental", 1, 1, 1)`,
@@ -162,7 +162,7 @@ var Interferers = []Script{
 		`y = 2`,
 		`debug.sethook()`,
 	}},
-	{Name: "debug_hook_count", Core: true, Stmts: []string{
+	{Name: "debug_hook_count", Stmts: []string{
 		`debug.sethook(function() HOOKS = (HOOKS or 0) + 1 end, "cr", 1)`,
 		`for i = 1, 20 do x = i end`,
 		`debug.sethook(error, "l")`,
@@ -184,7 +184,7 @@ var Interferers = []Script{
 		`x = (true).foo`,
 		`y = print.foo`,
 	}},
-	{Name: "pkg_paths", Core: true, Stmts: []string{
+	{Name: "pkg_paths", Stmts: []string{
 		`package.path = "$D/?.lua"`,
 		`package.cpath = "x"`,
 		`package.config = "\\\n:\n!\n"`,
@@ -202,7 +202,7 @@ var Interferers = []Script{
 		`package.preload.string = function() return "hijack" end`,
 		`package.loaded.string = nil s = require("string")`,
 	}},
-	{Name: "pkg_require_file", Core: true, Stmts: []string{
+	{Name: "pkg_require_file", Stmts: []string{
 		`io.open("$D/m1.lua", "w"):write("GLOB_FROM_MOD = 1 return {a = 1}"):close() package.path = "$D/?.lua"`,
 		`m = require("m1")`,
 		`package.searchers[1] = nil`,
@@ -215,11 +215,11 @@ var Interferers = []Script{
 		`ctx = runtime.callcontext({kill = {memory = 50000}}, function() local t = {} for i = 1, 1e6 do t[i] = {i} end end)`,
 		`st = ctx.status`,
 	}},
-	{Name: "quota_soft", Core: true, Stmts: []string{
+	{Name: "quota_soft", Stmts: []string{
 		`runtime.callcontext({stop = {cpu = 500}}, function() while not runtime.contextdue() do end end)`,
 		`runtime.callcontext({kill = {cpu = 10000}}, function() runtime.stopcontext() while not runtime.contextdue() do end end)`,
 	}},
-	{Name: "quota_flags", Core: true, Stmts: []string{
+	{Name: "quota_flags", Stmts: []string{
 		`runtime.callcontext({flags = "cpusafe memsafe iosafe timesafe"}, function() for k in pairs({1}) do end for i in ipairs({1}) do end return next({}) end)`,
 		`runtime.callcontext({flags = "iosafe"}, function() return io.open("$D/x_$R", "w") end)`,
 		`runtime.callcontext({flags = "timesafe"}, function() return os.setlocale("C") end)`,
@@ -274,7 +274,7 @@ var Interferers = []Script{
 		`warn("@off")`,
 		`warn("@on")`,
 	}},
-	{Name: "env_meta", Core: true, Stmts: []string{
+	{Name: "env_meta", Stmts: []string{
 		`setmetatable(_G, {__index = function(_, k) return "ghost_" .. k end, __newindex = function() end})`,
 		`x = undefined_name`,
 		`_ENV = setmetatable({}, {__index = function() return nil end})`,
